@@ -148,10 +148,21 @@ def _mirror(h, m, sign, mask):
     return h
 
 
+def _tame_uint8(h):
+    """uint8 storage only while no sum of entries can pass 255: sparse reductions add the values up in their own dtype
+    (known finding C02-KF20, judged in C02/collapse); here a wrapped intermediate result would only blur the chain"""
+    if h["holder"] == "sumtensor":
+        for p in h["parts"]:
+            _tame_uint8(p)
+    elif h.get("dtype") == "uint8" and sum(abs(v) for v in (h.get("data") or h.get("vals") or [])) > 255:
+        h["dtype"] = "int64"
+
+
 def _chain_strategy(kind):
     @st.composite
     def s(draw, tier):
         h = draw(cm.holder(tier, kind, min_order=2))
+        _tame_uint8(h)
         vk = h["vkind"]
         small = cm.has_small_dtype(h)
         shape = list(h["shape"])
